@@ -56,6 +56,8 @@ func (e *mocksEngine) Run(prop, tier string, seed int64, idx int) proto.Rec {
 		c = core[idx](rng)
 	} else {
 		switch x := rng.Intn(100); {
+		case x < 6:
+			c = mkGenQuiet(rng)
 		case x < 40:
 			c = mkGenProducer(rng, "async")
 		case x < 75:
@@ -453,7 +455,7 @@ func mkCoreCases() []func(rng *rand.Rand) mkCase {
 		return c
 	})
 	// consumer
-	for i := 0; i < 10; i++ {
+	for i := 0; i < 11; i++ {
 		i := i
 		add(func(rng *rand.Rand) mkCase { return mkFixedConsumer(rng, i) })
 	}
